@@ -14,6 +14,8 @@
 //	   n times, unanswered logins, accept+close and connection-refused outages, sessions dropped right after
 //	   login, cuts in the middle of 150 registrations; afterwards every configured proxy must be registered
 //	   again within the recovery grace, and the attempt rate in every 5 s window of an outage is bounded.
+//	E. (clientside.go) heartbeatTimeout == heartbeatInterval, the smallest timeout the validation accepts: refused, or
+//	   a session whose pings are all answered at once must stay up.
 //	C. real pair (pair.go): frpc <-> fault relay <-> frps with 1 / 20 / 150 proxies under sequences of cuts,
 //	   stalls (both ends silent), refusals, listener outages and server restarts (in-process, and a SIGKILLed
 //	   child process; uses vnode): steady phases must see no re-login, every fault must heal (client status,
@@ -41,6 +43,9 @@ const token = "c14-token"
 
 var run *h.Run
 var pa *h.PortAlloc
+
+// deadPort: local port of proxies whose backend is never used (nothing listens there)
+var deadPort int
 var lag *lagMon
 
 type hb struct{ I, T int }
@@ -52,6 +57,10 @@ func teardownGrace(T int) time.Duration { return time.Duration(3*T+10) * time.Se
 
 // 20 s max back-off x 1.1 jitter + 10 s dial timeout + 15 s
 const recoveryGrace = 50 * time.Second
+
+// releaseGrace: how long after a session's death its resources may still be found (the teardown itself takes
+// milliseconds; the grace covers a loaded machine and the cost of the ledger polls)
+const releaseGrace = 25 * time.Second
 
 // lagLimit: above this wake-up lag of the process itself a "live peer torn down" observation is inconclusive
 const lagLimit = 300 * time.Millisecond
@@ -71,7 +80,7 @@ type caseRef struct {
 func main() {
 	defer h.DisableGC(10)()
 	run = h.NewRun(prop, "fault_enumeration")
-	run.Rule = "one case = one fault sequence: (monitor family, heartbeat interval/timeout in {1/2,1/3,2/5}, tcpMux on/off, number of configured proxies in {1,20,150}, the moment at which the peer falls silent or the ordered list of faults with their PRNG-chosen durations); distinct = distinct (family, interval/timeout, mux, proxies, moment / fault-kind list); a case is non-trivial only if its session was established and at least one timed teardown or one recovery was observed"
+	run.Rule = "one case = one fault sequence: (monitor family, heartbeat interval/timeout in {1/2,1/3,2/5}, tcpMux on/off, number of configured proxies in {1,20,150}, the moment at which the peer falls silent or the ordered list of faults with their PRNG-chosen durations); distinct = distinct (family, interval/timeout, mux, proxies, moment / fault-kind list); family E adds interval = timeout in {1,2,3} (refused by validation, or the answered session must stay up); a case is non-trivial only if its session was established and at least one timed teardown or one recovery was observed"
 	run.Assumptions = []string{
 		"upper bounds are bounded-progress watchdogs: teardown 3x configured timeout + 10 s, recovery 50 s (20 s max login back-off x 1.1 + 10 s dial timeout + 15 s); later events would be reported as violations of the bounded restatement",
 		"lower bounds use the harness clock stamp taken before the last valid ping / pong (or login reply) was written, and the stamp taken after the close was observed: load can only widen the measured span",
@@ -80,11 +89,13 @@ func main() {
 		"user connections already bridged when a session dies are not counted as session resources (without tcpMux they are independent TCP connections by design)",
 	}
 	pa = h.Ports(prop)
+	deadPort = pa.Get()
 	lag = startLagMon()
 
-	nA := run.N(28, 84)
-	nB := run.N(32, 96)
-	nC := run.N(24, 72)
+	nA := run.N(28, 126)
+	nB := run.N(32, 150)
+	nC := run.N(24, 108)
+	nE := run.N(3, 6)
 
 	// servers of family A: one per (timeout, mux)
 	for _, p := range hbPairs {
@@ -120,6 +131,9 @@ transport.maxPoolCount = 2
 		if i < nA {
 			plan = append(plan, caseRef{"A", i})
 		}
+		if i < nE {
+			plan = append(plan, caseRef{"E", i})
+		}
 	}
 	workers := len(plan)
 	if run.Thorough() {
@@ -135,13 +149,16 @@ transport.maxPoolCount = 2
 			clientSideCase(c, ref.k)
 		case "C":
 			pairCase(c, ref.k)
+		case "E":
+			equalSettingsCase(c, ref.k)
 		}
 	})
 	for _, s := range aSrv {
 		s.Close()
 	}
 	stats.publish()
-	run.Finish(run.N(40, 120))
+	run.Set("worst_scheduling_lag_ms", lag.Max(0, h.Now()).Milliseconds())
+	run.Finish(run.N(40, 160))
 }
 
 // ---------------------------------------------------------------------------------------------
